@@ -125,3 +125,44 @@ func debugMeta(p *Program, spec string, forks int) {
 	}
 	fmt.Println(kinds, "steps", e.steps)
 }
+
+// debugFn prints a compact summary of any function's abstract interpretation.
+func debugFn(p *Program, spec string, iter, forks int, fail bool) {
+	i := strings.LastIndex(spec, ":")
+	pkg, name := spec[:i], spec[i+1:]
+	var fn *ssa.Function
+	if j := strings.Index(name, "."); j >= 0 {
+		fn = p.Method(pkg, name[:j], name[j+1:])
+	} else {
+		fn = p.Func(pkg, name)
+	}
+	if fn == nil {
+		fmt.Println("not found")
+		return
+	}
+	e := NewEngine(p)
+	e.EvalInits = true
+	e.MaxIter, e.MaxForks, e.FailReads = iter, forks, fail
+	st := newState()
+	s := &Stream{Name: "in"}
+	st.pos[s] = formInt(0)
+	outs := e.Run(fn, setupArgs(e, st, fn, s), st)
+	kinds := map[string]int{}
+	for _, o := range outs {
+		kinds[o.Kind]++
+		if o.Kind == "cutoff" {
+			continue
+		}
+		fmt.Printf("--- %s %s at %s ret=%s\n", o.Kind, trunc(o.Why, 200), p.Pos(o.Pos), trunc(valKey(o.Ret), 300))
+		for st2, ps := range o.St.pos {
+			fmt.Printf("    pos[%s]=%s\n", st2.Name, trunc(ps.Key(), 200))
+		}
+		for ci, c := range o.St.conds {
+			fmt.Printf("    if#%d %s\n", ci, trunc(c.Key(), 200))
+		}
+		for _, ev := range o.St.events {
+			fmt.Printf("    ev@%d %s %s recv=%s args=%s\n", ev.CondIdx, ev.Kind, ev.Fn, trunc(valKey(ev.Recv), 80), trunc(valKey(Tuple(ev.Args)), 400))
+		}
+	}
+	fmt.Println(kinds, "steps", e.steps)
+}
